@@ -9,6 +9,7 @@ mod fixtures_gen;
 mod keyfix;
 mod macrodrv;
 mod macrorun;
+mod memest;
 
 use std::env;
 
@@ -28,6 +29,7 @@ fn main() {
         "macro" => macrorun::cmd_macro(rest),
         "keys" => keyfix::cmd_keys(rest),
         "conc" => conc::cmd_conc(rest),
+        "memest" => memest::cmd_memest(rest),
         other => {
             eprintln!("unknown subcommand {}", other);
             2
